@@ -31,10 +31,10 @@ NEG = {
     "devNoSleepOnError": {"P1_Sleep"}, "devSaveDuringDetect": {"D1_File"}, "devNoReenter": {"R3_Reenter"},
     "devCountOnlyPositive": {"R1_EveryNth"}, "devDurationInSeconds": {"D5_Duration"},
     "devIgnoreDuration": {"D5_Duration"}, "devSkipKey": {"K4_AfterSeed"}, "devContinueAfterUnlock": {"K5_Unlock"},
-    "devNoCheck": {"S2_Checked"}, "devKeyLenFromZero": {"K_ZeroKey"}, "devWriteMismatch": {"D1_File"},
+    "devNoCheck": {"S2_Checked"}, "devAbortOnNegative": {"D5_Duration"}, "devKeyLenFromZero": {"K_ZeroKey"}, "devWriteMismatch": {"D1_File"},
 }
-ACTIONS = ["SetSession", "LoopHead", "MaybeReset", "Wait", "ReSession", "Check", "Recover", "Seed", "Write", "Key",
-           "Sleep", "Leave", "Interrupt"]
+ACTIONS = ["Do" + a for a in ("SetSession", "LoopHead", "MaybeReset", "Wait", "ReSession", "Check", "Recover", "Seed",
+                                "Write", "Key", "Sleep", "Leave", "Interrupt")]
 NPROC = max(2, min(12, (os.cpu_count() or 4) - 2))
 JAVA_ENV = {"JAVA_TOOL_OPTIONS": "-Xss64m"}
 
@@ -208,12 +208,8 @@ def _drift(trace: dict[str, Any], proj: dict[str, Any]) -> dict[str, Any] | None
 
 
 # ------------------------------------------------------------------ run
-def _sig(t: dict[str, Any]) -> dict[str, Any]:
-    c = t["C"]
-    return {"command": "dump-seeds", "sleep": c["sleep"] >= 0, "check": c["check"],
-            "reset": "off" if c["reset"] < 0 else "when-needed" if c["reset"] == 0 else "every-nth",
-            "zero_key": "off" if c["zk"] < 0 else "auto" if c["zk"] == 0 else "fixed",
-            "duration": "finite" if c["dur"] > 0 else "infinite"}
+def _sig(verdict: str) -> dict[str, Any]:
+    return {"command": "dump-seeds", "group": verdict.split("/")[0]}
 
 
 def _seed_answers(t: dict[str, Any]) -> tuple[int, int]:
@@ -291,7 +287,7 @@ def run(tier: str, seed: int) -> Report:
             rep.nontrivial.add(_digest(uniq[i]))
         v = verdicts[i]
         if v != "ok":
-            rep.violate(v, _sig(t), {"case": uniq[i], "end": t["end"], "exc": t["exc"], "tend": t["tend"],
+            rep.violate(v, _sig(v), {"case": uniq[i], "end": t["end"], "exc": t["exc"], "tend": t["tend"],
                                      "file": bytes(t["file"]).hex()[:200],
                                      "ecu_saw": [[e["t"], e["ta"], e["s"], bytes(e["q"]).hex(),
                                                   bytes(e["a"]).hex() if e["has"] else None] for e in t["ev"][:60]]})
